@@ -248,7 +248,8 @@ class Mapping(BasicMapping):
                 args = args.subs(x,0)
             # ...
             # get constants by subtracting coordinates from list of free symbols
-            constants        = list(set(args.free_symbols) - set(lcoords_general_symbols))
+            # (sorted by name: the order of a set of symbols depends on the string-hash seed)
+            constants        = sorted(set(args.free_symbols) - set(lcoords_general_symbols), key=lambda a: a.name)
             constants_values = {a.name:Constant(a.name) for a in constants}
             # subs constants as Constant objects instead of Symbol
             constants_values.update( kwargs )
